@@ -1142,6 +1142,7 @@ func runC04(c *Ctx) {
 	// R16 (shared with C13.R22): after a lost connection the error found in a chunk is what the transfer returns
 	checkKnownErrorNotAnsweredWithNil(c, "R16")
 	checkConnSendReturnsTheWritersError(c, "R17")
+	checkClosedLatchReadOnlyByTheConnection(c, "R18")
 
 	// ---------- R8 no client lock is leaked: a later call would hang ----------
 	checkLockBalance(c, "R8", func(fn *ssa.Function) bool { return !isServerSide(fn) && outermost(fn).Package() == p.Sftp }, 15)
